@@ -1,6 +1,6 @@
 SPECIFICATION Spec
 CONSTANTS
-  HPool = {2, 3, 10, 11}
+  HPool = {2, 3, 6, 9, 10, 11}
   MaxStr = 2
   Ext3 = FALSE
   ByteVals = TRUE
